@@ -22,6 +22,8 @@
 using namespace stir;
 using namespace c05;
 
+namespace c05real {
+
 typedef PoissonLogLikelihoodWithLinearModelForMeanAndProjData<Img> PLL;
 class OF : public PLL {
 public:
@@ -228,11 +230,10 @@ static void run(vh::Trace& tr, const RealSys& s, const ROpts& o, vh::Rng& rng) {
   for (const Req& q : reqs) do_request(tr, of, norec, q, *lami, *xi, rng, /*kImg*/ 12, /*kApprox*/ 10, /*kHess*/ 10);
 }
 
-int main(int argc, char** argv) {
+// entry point (this file is #included by c05_poissonll.cxx: all C05 drivers form one translation unit, hence one
+// executable with complete dependency tracking)
+int entry(int argc, char** argv) {
   if (argc < 5) { fprintf(stderr, "usage: c05_realproj run <out.ndjson> <scratch-dir> <count>\n"); return 2; }
-  vh::quiet();
-  vh::install_terminate();
-  install_signal_handlers();
   const long count = atol(argv[4]);
   vh::Trace tr(argv[2]);
   vh::Rng rng(vh::seed_from_env());
@@ -263,3 +264,4 @@ int main(int argc, char** argv) {
   tr.emit(vh::Json("End").num("lines", tr.lines));
   return 0;
 }
+} // namespace c05real
